@@ -43,6 +43,11 @@ impl World for MHandle {
     fn after_advance(&mut self, _now_ms: u64) {
         wake_due_gates();
     }
+    fn tick_at_boundary(&self) -> u64 {
+        // C13 judges instants: let a little time pass between operations so that a changed
+        // creation / recycle instant cannot hide behind a clock that stands still
+        with_w(|w| if w.sc.profile == "C13" { 1 } else { 0 })
+    }
 }
 
 /// Stack size of actor coroutines for this world.
@@ -81,6 +86,9 @@ pub fn run_scenario(sc: &MScenario, replay: Option<Vec<Decision>>, trace: bool) 
                 RunEnd::Violation(v) => violation = Some(v),
                 RunEnd::StepCap => step_cap_hit = true,
                 RunEnd::Diverged(e) => diverged = Some(e),
+        RunEnd::Deadlock(d) => {
+            violation = Some(engine::violation(&sc.profile, "deadlock", format!("no thread can move: {d} wait for a lock that is never released")))
+        }
             }
             if violation.is_none() && diverged.is_none() {
                 if step_cap_hit && sc.profile == "C02" {
